@@ -4,6 +4,7 @@
 -/
 import Nutree.Model.Search
 import Nutree.Lemmas.Iter
+import Nutree.Lemmas.Search
 namespace Nutree.C09
 open Nutree T Nutree.Search
 
@@ -14,5 +15,126 @@ theorem treeFindAll_limit (idx : Index) (d : DataId) (k : Nat) :
   cases h : idx.lookup d with
   | none => simp
   | some res => cases res <;> simp
+
+/-- the counting loop with `break` = the matches of the list, cut to the first k (k ≥ 1);
+no limit for None / 0 -/
+theorem searchLoop_spec (m : T → Bool) (xs : List T) :
+    (∀ k, searchLoop m (some (k+1)) xs 0 = (xs.filter m).take (k+1)) ∧
+    searchLoop m none xs 0 = xs.filter m ∧ searchLoop m (some 0) xs 0 = xs.filter m :=
+  ⟨fun k => by simpa using searchLoop_some m k xs 0 (Nat.zero_le _),
+   searchLoop_none m xs 0, searchLoop_zero m xs 0⟩
+
+theorem findAll_spec (m : T → Bool) (k : Option Nat) (addSelf : Bool) (self : T) :
+    nodeFindAllMatch m k addSelf self = Spec.findAll m k addSelf self := by
+  simp [nodeFindAllMatch, Spec.findAll, search_eq]
+
+theorem findFirst_spec (m : T → Bool) (self : T) :
+    nodeFindFirstMatch m self = Spec.findFirst m self := by
+  simp [nodeFindFirstMatch, Spec.findFirst, search_eq, limit_one_head?]
+
+theorem findAllId_spec (d : DataId) (addSelf : Bool) (self : T) :
+    nodeFindAllId d addSelf self = Spec.matching (fun n => n.did == d) addSelf self ∧
+    nodeFindFirstId d self = (Spec.matching (fun n => n.did == d) false self).head? := by
+  simp [nodeFindAllId, nodeFindFirstId, Spec.matching, iterPre_flat]
+
+/-- consequences in the words of the property: at most k results, all of them match, they
+are the FIRST matches in pre-order, in order -/
+theorem findAll_props (m : T → Bool) (k : Nat) (addSelf : Bool) (self : T) :
+    let res := nodeFindAllMatch m (some (k+1)) addSelf self
+    let all := (if addSelf then [self] else []) ++ flatL self.kids
+    res.length ≤ k + 1 ∧ (∀ n ∈ res, m n = true) ∧ res.Sublist all ∧ res <+: all.filter m := by
+  intro res all
+  have hres : res = (all.filter m).take (k + 1) := by
+    simp [res, all, nodeFindAllMatch, search_eq, Spec.limit, Spec.matching]
+  rw [hres]
+  refine ⟨List.length_take_le _ _, ?_, ?_, List.take_prefix _ _⟩
+  · intro n hn
+    exact (List.mem_filter.mp (List.mem_of_mem_take hn)).2
+  · exact (List.take_sublist _ _).trans List.filter_sublist
+
+theorem unlimited_exact (m : T → Bool) (addSelf : Bool) (self : T) (n : T) :
+    n ∈ nodeFindAllMatch m none addSelf self ↔
+      (n ∈ (if addSelf then [self] else []) ++ flatL self.kids ∧ m n = true) := by
+  simp only [nodeFindAllMatch, search_eq, Spec.limit, Spec.matching, List.mem_filter]
+
+/-- index path, any limit -/
+theorem treeFindAll_spec (idx : Index) (d : DataId) (k : Option Nat) :
+    treeFindAllId idx d k = Spec.limit k (Spec.clones idx d) := treeFindAllId_eq idx d k
+
+theorem treeFindFirst_spec (idx : Index) (d : DataId) :
+    treeFindFirstId idx d = (Spec.clones idx d).head? := treeFindFirstId_eq idx d
+
+/-- index access: needs the index invariant "no empty clone list" (part of C02's IndexExact) -/
+def NoEmpty (idx : Index) : Prop := ∀ p ∈ idx, p.2 ≠ []
+
+theorem getItem_spec (byId : List (Int × T)) (idx : Index) (key : Key) (h : NoEmpty idx) :
+    getItem byId idx key = Spec.getItem byId idx key := getItem_eq byId idx key h
+
+/-- (the hypothesis `NoEmpty` is not used: `contains` agrees with the specification for
+every index, see `Search.contains_eq`) -/
+theorem contains_spec (idx : Index) (cid : DataId) (_h : NoEmpty idx) :
+    contains idx cid = !(Spec.clones idx cid).isEmpty := contains_eq idx cid
+
+/-- decision table of index access in the words of the property -/
+theorem getItem_cases (byId : List (Int × T)) (idx : Index) (h : NoEmpty idx) :
+    getItem byId idx .node = .valueError ∧
+    (∀ i n cid, byId.lookup i = some n →
+        getItem byId idx (.obj true (some (.int i)) cid) = .ok n) ∧
+    (∀ isInt asId cid, (∀ i, isInt = true → asId = some (.int i) → byId.lookup i = none) →
+        (asId.elim [] (Spec.clones idx)) = [] → Spec.clones idx cid = [] →
+        getItem byId idx (.obj isInt asId cid) = .keyError) := by
+  refine ⟨rfl, ?_, ?_⟩
+  · intro i n cid hl
+    simp [getItem, hl]
+  · intro isInt asId cid hid hd hc
+    rw [getItem_spec byId idx _ h]
+    cases asId with
+    | none => cases isInt <;> simp [Spec.getItem, hc]
+    | some d =>
+      simp only [Option.elim] at hd
+      cases isInt with
+      | false => simp [Spec.getItem, hc, hd]
+      | true =>
+        cases d with
+        | str s => simp [Spec.getItem, hc, hd]
+        | int i => simp [Spec.getItem, hc, hd, hid i rfl rfl]
+
+/-! ### non-vacuity -/
+
+private def nA : T := .node { id := 1, data := default, did := .str "a" } []
+private def nB : T := .node { id := 2, data := default, did := .str "b" } []
+private def nA' : T := .node { id := 3, data := default, did := .str "a" } []
+private def nC : T := .node { id := 4, data := default, did := .int 7 } []
+/-- a 3-entry index, the first clone list of length 2. -/
+private def idx3 : Index := [(.str "a", [nA, nA']), (.str "b", [nB]), (.int 7, [nC])]
+
+example : NoEmpty idx3 ∧ idx3.length = 3 ∧ (Spec.clones idx3 (.str "a")).length = 2 := by
+  refine ⟨?_, rfl, rfl⟩
+  intro p hp
+  simp [idx3] at hp
+  rcases hp with rfl | rfl | rfl <;> simp
+
+/-- `tree["a"]` with two clones of "a": ambiguous (in the model and in the specification). -/
+example : (match getItem [] idx3 (.obj false (some (.str "a")) (.str "a")) with
+    | .ambiguous => true | _ => false) = true ∧
+    (match Spec.getItem [] idx3 (.obj false (some (.str "a")) (.str "a")) with
+    | .ambiguous => true | _ => false) = true := by decide
+
+example : getItem [] idx3 (.obj false (some (.str "a")) (.str "a")) = .ambiguous := by
+  simp [getItem, idx3, treeFindAllId]
+
+/-- a unique hit and a miss, for contrast. -/
+example : getItem [] idx3 (.obj false (some (.str "b")) (.str "b")) = .ok nB ∧
+    getItem [(4, nC)] idx3 (.obj true (some (.int 4)) (.int 4)) = .ok nC ∧
+    getItem [(4, nC)] idx3 (.obj true (some (.int 7)) (.int 7)) = .ok nC := by decide
+
+/-- without `NoEmpty` the model and the specification differ (an empty clone list under
+the key itself shadows the data lookup): the hypothesis of `getItem_spec` is needed. -/
+example : ∃ idx : Index, ¬ NoEmpty idx ∧
+    getItem [] idx (.obj false (some (.str "x")) (.str "b")) ≠
+      Spec.getItem [] idx (.obj false (some (.str "x")) (.str "b")) := by
+  refine ⟨[(.str "x", []), (.str "b", [nB])], ?_, ?_⟩
+  · intro h; exact h (.str "x", []) (by simp) rfl
+  · decide
 
 end Nutree.C09
